@@ -79,6 +79,41 @@ CLAIMED = {
         technique="per-operation postconditions + representation invariant by symbolic execution of the real AST over a shared event-loop model + SMT; bounded store shape",
         note=TRUST + "; event-loop model contracts/looplib.py trusted (timers fire once, at their deadline, never if cancelled); defect D9 repaired by fix commit f08e646",
     ),
+    "C05": dict(
+        category="other",
+        text="Every operation of the discovery part (offer, stop-offer, TTL expiry, reboot of a source, connection loss, watch / unwatch / watch-all) is proved, from an arbitrary consistent state, to tell each concerned listener 'offered' exactly when an entry appears and 'stopped' exactly when it disappears, immediately or by the time the loop is idle, and nothing otherwise -- the inductive step of alternation and truthfulness; the reboot of a message is applied before its offers. Stored contents and the number of listeners are bounded in shape; one schedule is the open known finding D10; hence level other.",
+        design_ref="DESIGN.md 4/C05, 5/D3 D9 D10",
+        technique="monitor invariant preserved by each operation: symbolic execution of the real AST over the shared event-loop model + SMT; bounded state shape",
+        note=TRUST + LOOP + "; defects D3/D9 repaired by fix commits f08e646, c4e5f5a; D10 recorded",
+    ),
+    "C06": dict(
+        category="other",
+        text="Subscribe / StopSubscribe handling, TTL expiry, subscriber reboot and service stop are proved, from an arbitrary consistent state and for either listener decision, to keep the server-side records truthful and alternating: an accepted Subscribe is recorded with deadline now + TTL and positively acknowledged, a rejected one is neither recorded nor later reported, and a reboot revealed by a message is applied before that message's Subscribe entries. State shape (other records, options per entry) is bounded, hence level other.",
+        design_ref="DESIGN.md 4/C06, 5/D4",
+        technique="monitor invariant preserved by each operation: symbolic execution of the real AST over the shared event-loop model + SMT; bounded state shape",
+        note=TRUST + LOOP + "; defect D4 repaired by fix commit c4e5f5a",
+    ),
+    "C11": dict(
+        category="other",
+        text="For every Subscribe entry (all ids, counters, TTLs, 0..2 endpoint options), instance state, listener decision and prior state: exactly one SubscribeAck is queued, for the sender only, echoing service, instance, major version, eventgroup id and counter, with the requested TTL iff a running matching instance accepted and TTL 0 otherwise; StopSubscribe of a known eventgroup is unanswered; multicast Subscribes are dropped by the dispatcher. Number of instances/options bounded in shape, hence level other.",
+        design_ref="DESIGN.md 4/C11",
+        technique="postconditions by symbolic execution of the real AST + SMT; bounded state shape",
+        note=TRUST + "; transmission of the queued answer is C15",
+    ),
+    "C12": dict(
+        category="other",
+        text="handle_findservice is proved to schedule exactly one offer per ready instance whose description matches the request (wildcards on the request side), to the requester only, via call_soon for unicast and via call_later with a delay inside the request-response window for multicast, and nothing else; _send_offer queues the service's offer entry with the configured TTL for exactly that destination, and nothing once the instance is stopped. Two instances (bounded shape), hence level other.",
+        design_ref="DESIGN.md 4/C12",
+        technique="postconditions over the event-loop model by symbolic execution of the real AST + SMT; bounded number of instances",
+        note=TRUST + LOOP + "; random.uniform axiom; defects D7/D8 repaired by fix commits 48521a4, b7551db",
+    ),
+    "C15": dict(
+        category="other",
+        text="queue_send and SendCollector are proved over an arbitrary queue state: zero timeout sends at once alone; otherwise the entry joins the open collector of exactly its destination behind earlier entries (a new collector with one timer if none is open), whose window closes no later than timeout after queueing; the closing window sends the entries once, in order, to the collector's destination and refuses later entries. Entries already waiting per collector bounded to 0..1, hence level other.",
+        design_ref="DESIGN.md 4/C15",
+        technique="postconditions over the event-loop model by symbolic execution of the real AST + SMT; bounded queue shape",
+        note=TRUST + LOOP,
+    ),
 }
 
 NA_REASONS = {
